@@ -12,8 +12,8 @@ package apph
 //   operation-on-frozen-validator-succeeded STAKE/UNSTAKE/WITHDRAW naming a frozen validator returned code 0
 //   withdraw-by-stake-account-of-frozen-validator-succeeded   WITHDRAW by the stake address of a frozen validator's record, whatever validator it names
 //   slash-charged-previous-stake-address    a verdict in the block in which the stake address changed did not charge the current stake address
-//   unstake-with-pending-allegation-succeeded   (a request that was already committed: the guard iterates the
-//                                           committed tree, a request created earlier in the same block is invisible to it)
+//   unstake-with-pending-allegation-succeeded   UNSTAKE returned code 0 while an allegation request against the validator exists
+//                                           (also one opened earlier in the same block: d2f2af2)
 //   bounded-credit-not-from-matured-unstake withdrawable amount grew at EndBlock h by more than the
 //                                           unstakes made at h - maturityThen (early or double unlock)
 //   matured-unstake-not-credited            ... or by less
@@ -230,10 +230,6 @@ func (e *stakeExec) monitorTx(c stakeCmd, h int64, v, d int, tr TxResult, fee *b
 	if c.Kind == "unstake" && pre.Req[v] {
 		e.hit("unstake-with-pending-allegation-succeeded", where)
 		return
-	}
-	if c.Kind == "unstake" && pre.ReqSameBlock[v] {
-		// not part of the property as stated; the guard cannot see a request of the same block
-		e.Res.Counters["unstake_ok_while_allegation_of_same_block_pending"]++
 	}
 	// the withdrawable amount is kept per stake address: the stake account of a frozen validator
 	// must not withdraw whatever validator the message names (df2e1ab)
